@@ -109,11 +109,11 @@ def wbytes(ws):
 
 
 def elf_desc(words=None, etype=2, entry=0x1000, text_addr=0x1000, text_flags=6, load=True, memsz=None, extra_sects=None, extra_progs=None,
-             text_bytes=None):
+             text_bytes=None, filesz=-1):
     tb = text_bytes if text_bytes is not None else wbytes(words if words is not None else valid_words())
     progs = []
     if load:
-        progs.append({"ptype": 1, "vaddr": a8(text_addr), "content": tb, "filesz": -1, "memsz": a8(len(tb) if memsz is None else memsz), "flags": 5})
+        progs.append({"ptype": 1, "vaddr": a8(text_addr), "content": tb, "filesz": filesz, "memsz": a8(len(tb) if memsz is None else memsz), "flags": 5})
     progs += extra_progs or []
     sects = [{"name": ".text", "stype": 1, "flags": text_flags, "addr": a8(text_addr), "content": tb, "size": len(tb)}] + (extra_sects or [])
     return {"case": "w", "op": "elfwrite", "etype": etype, "machine": 243, "entry": a8(entry), "progs": progs, "sects": sects, "probes": [], "path": ""}
@@ -185,6 +185,11 @@ class C26(Check):
         add("hugememsz", elf_desc(memsz=1 << 40))
         add("hugememsz", elf_desc(memsz=1 << 62))
         add("hugememsz", elf_desc(memsz=(1 << 64) - 1))
+        # the header claims an enormous file size as well (the file itself stays short): sizes equal, memory a little larger,
+        # memory just above the loader's limit
+        for fs, ms in ((1 << 62, 1 << 62), (1 << 62, (1 << 62) + 4096), (1 << 40, 1 << 40), ((1 << 31), (1 << 31) + 8),
+                       ((1 << 30) + 1, (1 << 30) + 1), (1 << 62, (1 << 62) + (1 << 30))):
+            add("hugememsz", elf_desc(filesz=fs, memsz=ms))
         add("undecodable", elf_desc(words=valid_words()[:2] + [0xFFFFFFFF]))
         add("undecodable", elf_desc(words=[0]))
         add("truncword", elf_desc(text_bytes=wbytes(valid_words())[:-2]))
